@@ -11,7 +11,9 @@ C29 — the decided part of "output is deterministic across runs".
 
 (b) Dump ids.  A dump file names tokens, scopes, variables, functions, values … by their addresses.  The check
     compares dumps of different runs after `canon`: every id is replaced by the index of its first occurrence.
-    A dump is modelled as the sequence of its text chunks and id occurrences.
+    A dump (one `<dump cfg=…>` element: the objects of a configuration are destroyed before the next one is analysed, so
+    an address identifies an object only within one element) is modelled as the sequence of its text chunks and id
+    occurrences.
 -/
 namespace Cppcheck.Determinism
 open Cppcheck.Wire Cppcheck.PathMatch Cppcheck.FileLister
